@@ -38,6 +38,11 @@ def blocks(tier, seed, prop='C01'):
                       ('R6', ('--selenocysteine-termination', '--w2f-reassignment'), 'sect+w2f'),
                       ('R1', ('--w2f-reassignment',), 'w2f')):
         out.append((f'D1/{r}/{cn}', E.d1_cases(r, MAIN_TX[r], E.Cfg(exception=None, flags=fl)), dict(deviations=1, flags=list(fl))))
+    # Sec termination with a tight maximum: the Sec-containing cleavage product QRPISUVK (8) is longer than max_length 7,
+    # its Sec-terminated prefix is inside the limits
+    out.append(('D1/R6/sect/max7', E.d1_cases('R6', 'ENST06', E.Cfg(exception=None, misc=1, min_length=4, max_length=7,
+                                                                  flags=('--selenocysteine-termination',)), 0, 70),
+                dict(deviations=1, flags=['--selenocysteine-termination'], max_length=7, window=[0, 70])))
     # D2: all pairs within 9 nt; quick = seed-selected complete windows, thorough = all windows
     for r in ('R1', 'R3', 'R2'):
         tx = MAIN_TX[r]
@@ -177,6 +182,46 @@ def novel_blocks(tier, seed):
     sm += [E.small_alphabet(ref7, 'ENST0B1', p, reduced=True)[0] for p in range(8, ref7.tx_len('ENST0B1') - 3, 17 if q else 7)]
     out.append(('FUS/R7/A1>B1/+snv', [E.Case('R7', fusions=f.fusions, small=(v,), cfg=CFG_NONE) for f in fz for v in sm],
                 dict(deviations=2)))
+    # several units of one transcript in one run: SNV + fusion + circRNA, SNV + two fusions with different breakpoints
+    # (later units read the transcript's variant series: state shared between units)
+    allf = fusion_cases('R7', 'ENST0A1', 'ENST0B1', 1, CFG_NONE)
+    bps = sorted({f.fusions[0].donor_pos for f in allf})
+    fpick = []
+    for k in (1, 2, 3, 4):
+        bp = bps[len(bps) * k // 5]
+        fzb = [f.fusions[0] for f in allf if f.fusions[0].donor_pos == bp]
+        fpick.append(fzb[len(fzb) // 3])
+    csel = [c.circs[0] for c in circ_cases('R7', 'ENST0A1', CFG_NONE)]
+    usnv = [E.small_alphabet(ref7, 'ENST0A1', p, reduced=True)[0] for p in range(12, ref7.tx_len('ENST0A1') - 6, 13 if q else 7)]
+    ucases = []
+    for v in usnv:
+        for f1 in fpick:
+            for c in csel[::2] if q else csel:
+                ucases.append(E.Case('R7', small=(v,), fusions=(f1,), circs=(c,), cfg=CFG_NONE))
+            for f2 in fpick:
+                if f1.donor_pos < f2.donor_pos:
+                    ucases.append(E.Case('R7', small=(v,), fusions=(f1, f2), cfg=CFG_NONE))
+    out.append(('UNITS/R7', ucases, dict(deviations=3)))
+    # two fusion records with the same donor breakpoint whose accepters are two isoforms of one gene at the same gene
+    # position: junction peptides carry two header entries (table / FASTA bookkeeping of multi-entry peptides)
+    f2cases = []
+    a1, a3 = ref7.exons_gene('ENST0A1'), ref7.exons_gene('ENST0A3')
+    shared = [g for (s, e) in a3 for g in range(s, e) if any(s1 <= g < e1 for s1, e1 in a1)]
+    for p in range(10, ref7.tx_len('ENST0B1') - 10, 23 if q else 9):
+        dpos = ref7.tx_to_gene('ENST0B1', p - 1) + 1
+        for g in shared[5::17 if q else 7]:
+            f2cases.append(E.Case('R7', fusions=(CV.Fusion('ENST0B1', dpos, 'ENST0A1', g), CV.Fusion('ENST0B1', dpos, 'ENST0A3', g)), cfg=CFG_NONE))
+    out.append(('FUS2/R7/B1>A1+A3', f2cases, dict(deviations=2)))
+    # intragenic fusion (donor and accepter transcripts of the same gene) + one small variant on either side
+    igc = []
+    for p in range(12, ref7.tx_len('ENST0A1') - 20, 29 if q else 11):
+        dpos = ref7.tx_to_gene('ENST0A1', p - 1) + 1
+        for qa in range(20, ref7.tx_len('ENST0A3') - 6, 31 if q else 13):
+            f = CV.Fusion('ENST0A1', dpos, 'ENST0A3', ref7.tx_to_gene('ENST0A3', qa))
+            igc.append(E.Case('R7', fusions=(f,), cfg=CFG_NONE))
+            for v in usnv[::2]:
+                igc.append(E.Case('R7', fusions=(f,), small=(v,), cfg=CFG_NONE))
+    out.append(('FUS/R7/A1>A3/intragenic', igc, dict(deviations=2)))
     for r, tx in (('R8', 'ENST08'), ('R7', 'ENST0A1'), ('R7', 'ENST0B1')):
         out.append((f'CIRC/{r}/{tx}', circ_cases(r, tx, CFG_NONE), dict(deviations=1)))
     out.append(('CIRC/R8/ENST08/snv', circ_cases('R8', 'ENST08', CFG_NONE, with_snv=True), dict(deviations=2)))
